@@ -124,6 +124,33 @@ def run(ctx):
                                 ("oil.density_Standing", lambda q: oil.density_Standing(T, q, api, gg, rsi)), ("water.b_water_McCain", lambda q: water.b_water_McCain(T, q)),
                                 ("water.density_water_McCain", lambda q: water.density_water_McCain(T, q, sal2)), ("Fluid.oil_FVF", fl2.oil_FVF)):
                     ev += dom.check_vector_forms(f2, pe, rep2, nm2, dict(function=nm2, **params), forms=forms2)
+        # fluid parameters held as 0-d arrays (what np.asarray / np.squeeze / an HDF5 attribute hands out): the array methods give what
+        # the scalar calls give for the same numbers, and the caller's parameter objects are left as they were
+        if k < (3 if ctx.quick else 40):
+            from bluebonnet.fluids import gas as gas0
+            tpc0, ppc0 = -72.2, 653.0
+            if 1.05 <= (T + 459.67) / (tpc0 + 459.67) <= 3.0:
+                T0, tpc_arr, ppc_arr = np.array(float(T)), np.array(tpc0), np.array(ppc0)
+                fl0 = Fluid(T0, api, gg, rsi, 3.0, 0.1)
+                p0 = np.array([float(x) for x in ints[:6]])
+                p0 = p0[p0 / ppc0 <= 30.0]
+                for nm0, call0, sc0 in (("Fluid.gas_viscosity", lambda a: fl0.gas_viscosity(a, tpc_arr, ppc_arr), lambda x: gas0.viscosity_Sutton(float(T), x, tpc0, ppc0, gg)),
+                                        ("Fluid.gas_FVF", lambda a: fl0.gas_FVF(a, tpc_arr, ppc_arr), lambda x: gas0.b_factor_DAK(float(T), x, tpc0, ppc0)),
+                                        ("Fluid.oil_FVF", fl0.oil_FVF, lambda x: oil.b_o_Standing(float(T), x, api, gg, rsi)),
+                                        ("Fluid.water_viscosity", fl0.water_viscosity, lambda x: water.viscosity_water_McCain(float(T), x, 3.0))):
+                    ev += 1
+                    try:
+                        got0 = np.asarray(call0(p0.copy()), float)
+                    except Exception as e:  # noqa: BLE001
+                        bad(f"{nm0}: array call raises when a fluid parameter is a 0-d array", dict(function=nm0, T=T, Tpc=tpc0, Ppc=ppc0, parameters="0-d arrays"), repr(e)[:200])
+                        continue
+                    want0 = np.array([float(sc0(float(x))) for x in p0])
+                    if got0.shape != p0.shape or not np.allclose(got0, want0, rtol=1e-12, atol=0):
+                        bad(f"{nm0}: array result differs from the element-wise scalar result when a fluid parameter is a 0-d array", dict(function=nm0, T=T, Tpc=tpc0, Ppc=ppc0, pressures=[float(x) for x in p0]),
+                            dict(array=[float(x) for x in got0], scalar=[float(x) for x in want0]))
+                    if float(T0) != float(T) or float(tpc_arr) != tpc0 or float(ppc_arr) != ppc0:
+                        bad(f"{nm0}: the caller's parameter objects (0-d arrays) were modified", dict(function=nm0), dict(T=[float(T), float(T0)], Tpc=[tpc0, float(tpc_arr)], Ppc=[ppc0, float(ppc_arr)]))
+                        break
         # long arrays (a pressure field of a fine simulation, hourly gauge data): every entry is its own correlation value, whatever
         # the length of the array
         if k < (1 if ctx.quick else 4):
